@@ -32,6 +32,11 @@ def posix(p):
     return p.replace(os.sep, "/")
 
 
+def safe(s):
+    """case ids go into a shell command line: no quotes, no unprintable characters"""
+    return "".join(c if (c.isprintable() and c not in "'\"\\$`!") else f"%{ord(c):04x}" for c in s)
+
+
 def rel_to(h, p):
     return os.path.relpath(p, h) if h else p
 
@@ -647,7 +652,7 @@ def gen_cases(run):
                     nnew = (c + rd) % 3
                     newfiles = new_files_for(nnew, renames, tree, nested, c)
                     # unrelated new files stay out of nested-history ambiguity: they may lie anywhere
-                    cid = f"set/{tname}/{ni}/{'+'.join(posix(s) for s in sub) or '-'}/{'+'.join(kinds) or '-'}/n{nnew}" + (f"/r{rd}" if rd else "")
+                    cid = safe(f"set/{tname}/{ni}/{'+'.join(posix(s) for s in sub) or '-'}/{'+'.join(kinds) or '-'}/n{nnew}" + (f"/r{rd}" if rd else ""))
                     key = ("set", tname, ni, tuple(renames), nnew) if renames else None
                     cases.append(scenario(cid, key, tree, nested, renames=renames, newfiles=newfiles, kinds=kinds, full=(c % 4 == 0) or thorough))
 
@@ -746,6 +751,28 @@ def gen_cases(run):
         sc["own_g1"] = True
         cases.append(sc)
 
+    # ---- (4b) a renamed file's new path (relative to its history) names another file relative to a different history
+    for name, nested, mv in [
+        ("outer-takes-nested-relative", ["A"], [("c.txt", "a.txt")]),
+        ("outer-takes-nested-relative-deep", ["A"], [("B/b.txt", "deep/x.bin")]),
+        ("nested-takes-outer-relative", ["A"], [("A/a.txt", "A/c.txt")]),
+        ("nested-takes-outer-relative-dir", ["A"], [("A/deep/notes.txt", "A/B/b.txt")]),
+        ("inner-takes-middle-relative", ["A/deep", "A"], [("A/deep/x.bin", "A/deep/a.txt")]),
+        ("both-directions", ["A"], [("c.txt", "a.txt"), ("A/a.txt", "A/c.txt")]),
+    ]:
+        cases.append(scenario(f"clash/{name}", ("clash", name), deep, nested, renames=mv, newfiles={"unrel.txt": "unrelated"}, full=True))
+
+    # ---- (4c) the same name in the other Unicode normal form is a different name
+    nfd = lambda t: unicodedata.normalize("NFD", t)
+    names = S.TREES["names"]
+    for name, nested, mv, fmv in [
+        ("file-nfc-to-nfd", [], [("Übung/é.txt", "Übung/" + nfd("é.txt"))], []),
+        ("files-both-histories", [S.NFD], [("Übung/é.txt", "Übung/" + nfd("é.txt")), (S.NFD + "/é.txt", S.NFD + "/" + nfd("é.txt"))], []),
+        ("folder-nfc-to-nfd", [], [], [("Übung", nfd("Übung"))]),
+        ("folder-nfd-to-nfc", [], [], [(S.NFD, unicodedata.normalize("NFC", S.NFD))]),
+    ]:
+        cases.append(scenario(f"norm/{name}", ("norm", name), names, nested, renames=mv, folder_moves=fmv, newfiles={"unrel.txt": "unrelated"}, full=False))
+
     # ---- (5) sizes around 1 MiB, contents that differ in the last byte only
     st = size_tree()
     big = [f for f in files_of(st)]
@@ -764,7 +791,7 @@ def gen_cases(run):
 
     # ---- (7) whole folders renamed (every file below moves to another directory of the same history)
     for tname, nested, fm in [("deep", [], ("A", "A9")), ("deep", [], ("A/deep", "B/deep moved")), ("levels", [], ("L1/L2", "L1/M2")), ("prefix", [], ("Clips", "Clips_old")), ("names", [], ("sp ace", "sp  ace2")), ("deep", ["A"], ("A/deep", "A/deeper"))]:
-        cases.append(scenario(f"folder/{tname}/{'+'.join(nested) or '-'}/{posix(fm[0])}>{posix(fm[1])}", ("folder", tname, tuple(nested), fm), S.TREES[tname], nested, folder_moves=[fm], newfiles={"unrel.txt": "unrelated"}, full=False))
+        cases.append(scenario(safe(f"folder/{tname}/{'+'.join(nested) or '-'}/{posix(fm[0])}>{posix(fm[1])}"), ("folder", tname, tuple(nested), fm), S.TREES[tname], nested, folder_moves=[fm], newfiles={"unrel.txt": "unrelated"}, full=False))
 
     # ---- (8) time zones: renames keep mtimes; times on both sides of a DST switch and inside the repeated hour
     zones = [("Europe/Berlin", 1729990800), ("CET-1CEST,M3.5.0,M10.5.0/3", 1729992600), ("America/St_Johns", 1710052200), ("Australia/Lord_Howe", 1712417400), ("UTC", 0)]
@@ -782,7 +809,7 @@ def gen_cases(run):
             rnd2 = random.Random(run.seed + 17)
             ks = sorted(set([1, n] + rnd2.sample(ks, min(4, len(ks)))))
         for k in ks:
-            cases.append(scenario(f"crash/{k}of{n}", ("crash", k), cr_tree, cr_nested, renames=cr_mv, newfiles={"unrel.txt": "unrelated"}, crash=k, full=False))
+            cases.append(scenario(f"crash/{k}", ("crash", k), cr_tree, cr_nested, renames=cr_mv, newfiles={"unrel.txt": "unrelated"}, crash=k, full=False))
     return cases
 
 
@@ -810,11 +837,15 @@ def main():
         "names with spaces, XML-special, U+2028, tab], 0-2 unrelated new files, options and formats of the -dr generation, root spelling); "
         "non-trivial = distinct case with at least one renamed file; each case runs create -dr, verify, diff, create, verify, "
         "verify after altering a renamed file (twice), and create without -dr on a copy",
-        bound="10 trees (<= 7 entries, depth <= 4) x <= 6 nested placements (<= 3 levels); rename sets: all singletons, sampled pairs/triples, "
-        "the full set (quick) / all subsets of size <= 3, 30 of size 4, the full set, 3 kind rotations (thorough); targets are fresh paths in the "
-        "same history, contents pairwise distinct; formats 6x2 pairs (quick) / full matrix of format sets (thorough); 14 history shapes "
-        "(12 generations, varying formats, -n, -sf, failed generation, nested history added later, 1-2 earlier rename steps, rename back); "
-        "files of 2^20-1, 2^20, 2^20+1 bytes; symlinks; folder renames; 3-5 time zones; kill points of create -dr (8 sampled / all)",
+        bound="11 trees (<= 7 entries, depth <= 4) x <= 6 nested placements (<= 3 levels); rename sets: 3 singletons per placement (every file "
+        "alone under some placement), one sampled pair and triple, the full set (quick) / all subsets of size <= 3, 30 of size 4, the full set, "
+        "2 kind rotations (thorough); targets are fresh, never recorded paths in the same history, contents pairwise distinct, source folders stay "
+        "unless a whole folder is renamed; formats of earlier vs -dr generation: 6 pairs (quick) / 49 + 60 sampled pairs of format sets (thorough), "
+        "repeated -h, default format; options -n -v -i -ii --author/--comment x 6 root spellings; 15 history shapes (12 generations before / after "
+        "an earlier rename, varying formats, -n, -sf, failed generation, nested history added later, 1-2 earlier rename steps of the same file, "
+        "rename back); new path equal to a path relative to another history (6); NFC<->NFD renames of files and folders (4); files of 2^20-1, 2^20, 2^20+1 bytes and twins differing in the "
+        "last byte; symlinks to outside files; 6 folder renames; 3-5 time zones with mtimes around DST switches; kill points of create -dr "
+        "(6 sampled / all ~45) followed by a second create -dr",
     )
     cases = [c for c in gen_cases(run) if run.want(c["cid"])]
     ids = [c["cid"] for c in cases]
@@ -829,10 +860,16 @@ def main():
             results = pool.map(work, items, chunksize=1)
     else:
         results = [work(it) for it in items]
+    found, rank = [], {}
     for r in results:
         run.case(r["cid"], r["key"], sample=r["sample"])
         for what, wclass, inp in r["violations"]:
-            run.violation(r["cid"], what, wclass, inp=inp)
+            fam = (r["cid"].split("/")[0], wclass)
+            found.append((rank.get(fam, 0), len(found), r["cid"], what, wclass, inp))
+            rank[fam] = rank.get(fam, 0) + 1
+    # one witness of every (group, kind of failure) first: the printed list is capped
+    for _, _, cid, what, wclass, inp in sorted(found, key=lambda t: t[:2]):
+        run.violation(cid, what, wclass, inp=inp)
     run.finish()
 
 
